@@ -40,9 +40,16 @@ pub fn unhex(s: &str) -> Vec<u8> {
         .collect()
 }
 
+thread_local! {
+    static IN_CATCH: std::cell::Cell<u32> = const { std::cell::Cell::new(0) };
+}
+
 /// Run `f`, turning a panic into `Err(message)`.
 pub fn catch<T>(f: impl FnOnce() -> T) -> Result<T, String> {
-    match std::panic::catch_unwind(std::panic::AssertUnwindSafe(f)) {
+    IN_CATCH.with(|c| c.set(c.get() + 1));
+    let r = std::panic::catch_unwind(std::panic::AssertUnwindSafe(f));
+    IN_CATCH.with(|c| c.set(c.get() - 1));
+    match r {
         Ok(v) => Ok(v),
         Err(e) => {
             let msg = if let Some(s) = e.downcast_ref::<&str>() {
@@ -57,7 +64,13 @@ pub fn catch<T>(f: impl FnOnce() -> T) -> Result<T, String> {
     }
 }
 
-/// Silence the default panic printer (panics inside `catch` are expected outcomes).
+/// Silence the panic printer for panics inside `catch` (expected outcomes); a panic anywhere else
+/// is a harness bug: print it and exit 2 (machinery failure, never a verdict).
 pub fn quiet_panics() {
-    std::panic::set_hook(Box::new(|_| {}));
+    std::panic::set_hook(Box::new(|info| {
+        if IN_CATCH.with(|c| c.get()) == 0 {
+            eprintln!("MACHINERY: harness panic: {info}");
+            std::process::exit(2);
+        }
+    }));
 }
